@@ -48,6 +48,7 @@ struct Cx<'a> {
 const REPORT_PER_SIGNATURE: u64 = 6;
 static SIG_COUNTS: Mutex<BTreeMap<String, u64>> = Mutex::new(BTreeMap::new());
 static SIG_POS_COUNTS: Mutex<BTreeMap<String, u64>> = Mutex::new(BTreeMap::new());
+static SHOW: std::sync::OnceLock<bool> = std::sync::OnceLock::new();
 static SIG_REPORTED: Mutex<BTreeMap<String, u64>> = Mutex::new(BTreeMap::new());
 thread_local! {
     static SIG_DONE: RefCell<std::collections::HashSet<String>> = RefCell::new(std::collections::HashSet::new());
@@ -314,6 +315,9 @@ fn rt<T: Scalar, C: Serialize + DeserializeOwned + PartialEq + Debug>(cx: &mut C
         }
         Ok(Ok(t)) => t,
     };
+    if *SHOW.get_or_init(|| std::env::var_os("C12_SHOW").is_some()) {
+        eprintln!("[show] {} {} {}:\n{}", T::KIND, pos.name(), ov.label(), text);
+    }
     // style of the emitted scalar (for the evidence and for naming the failing class)
     let mut scalar_off: Option<usize> = None;
     let style = if T::KIND == "string" || T::KIND == "char" || T::KIND == "option-string" {
@@ -626,6 +630,134 @@ fn check_pos<T: Scalar>(cx: &mut Cx, v: &T, pos: Pos, ov: Ov) {
         Pos::TupleStructField => rt(cx, v, pos, ov, &Ts(v.clone(), 6), e.map(|e| Val::Seq(vec![e, vi(6)]))),
         Pos::SeqUnderMapKey => rt(cx, v, pos, ov, &MapVal { k: (v.clone(), 5u8), z: 6 }, e.map(|e| mv(Val::Seq(vec![e, vi(5)]), 6))),
         Pos::FlowNested => rt(cx, v, pos, ov, &FlowSeq(vec![MapVal { k: v.clone(), z: 5 }]), e.map(|e| Val::Seq(vec![mv(e, 5)]))),
+        // ---- positions produced by the layout code
+        Pos::SeqInSeqFirst => rt(cx, v, pos, ov, &((v.clone(), 5u8), 6u8), e.map(|e| Val::Seq(vec![Val::Seq(vec![e, vi(5)]), vi(6)]))),
+        Pos::SeqInSeqItem => {
+            rt(cx, v, pos, ov, &((5u8, v.clone(), 6u8), 6u8), e.map(|e| Val::Seq(vec![Val::Seq(vec![vi(5), e, vi(6)]), vi(6)])))
+        }
+        Pos::SeqInSeqInMap => rt(
+            cx,
+            v,
+            pos,
+            ov,
+            &MapVal { k: vec![(5u8, v.clone())], z: 6 },
+            e.map(|e| mv(Val::Seq(vec![Val::Seq(vec![vi(5), e])]), 6)),
+        ),
+        Pos::ComplexKeyValue => rt(
+            cx,
+            v,
+            pos,
+            ov,
+            &Om(vec![((1u8, 2u8), v.clone())]),
+            e.map(|e| Val::Map(vec![(Val::Seq(vec![vi(1), vi(2)]), e)])),
+        ),
+        Pos::ComplexKeyMember => rt(
+            cx,
+            v,
+            pos,
+            ov,
+            &Om(vec![((v.clone(), 5u8), 6u8)]),
+            e.map(|e| Val::Map(vec![(Val::Seq(vec![e, vi(5)]), vi(6))])),
+        ),
+        Pos::ComplexMapKeyValue => rt(
+            cx,
+            v,
+            pos,
+            ov,
+            &Om(vec![(MapVal { k: 1u8, z: 2 }, v.clone())]),
+            e.map(|e| Val::Map(vec![(mv(vi(1), 2), e)])),
+        ),
+        Pos::TupleStructInMap => rt(cx, v, pos, ov, &MapVal { k: Ts(v.clone(), 5), z: 6 }, e.map(|e| mv(Val::Seq(vec![e, vi(5)]), 6))),
+        Pos::TupleStructInSeq => {
+            rt(cx, v, pos, ov, &(Ts(v.clone(), 5), 6u8), e.map(|e| Val::Seq(vec![Val::Seq(vec![e, vi(5)]), vi(6)])))
+        }
+        Pos::TupleVariantInSeq => rt(
+            cx,
+            v,
+            pos,
+            ov,
+            &(En::T(v.clone(), 5), 6u8),
+            e.map(|e| Val::Seq(vec![Val::Map(vec![(vs("T"), Val::Seq(vec![e, vi(5)]))]), vi(6)])),
+        ),
+        Pos::TupleVariantInMap => rt(
+            cx,
+            v,
+            pos,
+            ov,
+            &MapVal { k: En::T(v.clone(), 5), z: 6 },
+            e.map(|e| mv(Val::Map(vec![(vs("T"), Val::Seq(vec![e, vi(5)]))]), 6)),
+        ),
+        Pos::StructVariantInSeq => rt(
+            cx,
+            v,
+            pos,
+            ov,
+            &(En::S { f: v.clone(), g: 5 }, 6u8),
+            e.map(|e| Val::Seq(vec![Val::Map(vec![(vs("S"), Val::Map(vec![(vs("f"), e), (vs("g"), vi(5))]))]), vi(6)])),
+        ),
+        Pos::StructVariantInMap => rt(
+            cx,
+            v,
+            pos,
+            ov,
+            &MapVal { k: En::S { f: v.clone(), g: 5 }, z: 6 },
+            e.map(|e| mv(Val::Map(vec![(vs("S"), Val::Map(vec![(vs("f"), e), (vs("g"), vi(5))]))]), 6)),
+        ),
+        Pos::VariantInVariant => rt(
+            cx,
+            v,
+            pos,
+            ov,
+            &En::V(En::V(v.clone())),
+            e.map(|e| Val::Map(vec![(vs("V"), Val::Map(vec![(vs("V"), e)]))])),
+        ),
+        Pos::VariantInFlow => {
+            rt(cx, v, pos, ov, &FlowSeq((En::V(v.clone()), 6u8)), e.map(|e| Val::Seq(vec![Val::Map(vec![(vs("V"), e)]), vi(6)])))
+        }
+        Pos::TupleVariantInFlow => rt(
+            cx,
+            v,
+            pos,
+            ov,
+            &FlowSeq((En::T(v.clone(), 5), 6u8)),
+            e.map(|e| Val::Seq(vec![Val::Map(vec![(vs("T"), Val::Seq(vec![e, vi(5)]))]), vi(6)])),
+        ),
+        Pos::StructVariantInFlow => rt(
+            cx,
+            v,
+            pos,
+            ov,
+            &FlowMap(MapVal { k: En::S { f: v.clone(), g: 5 }, z: 6 }),
+            e.map(|e| mv(Val::Map(vec![(vs("S"), Val::Map(vec![(vs("f"), e), (vs("g"), vi(5))]))]), 6)),
+        ),
+        Pos::FlowSeqInBlock => rt(
+            cx,
+            v,
+            pos,
+            ov,
+            &vec![MapVal { k: FlowSeq((5u8, v.clone(), 6u8)), z: 6 }],
+            e.map(|e| Val::Seq(vec![mv(Val::Seq(vec![vi(5), e, vi(6)]), 6)])),
+        ),
+        Pos::NestedMapKey => rt(cx, v, pos, ov, &MapVal { k: Om(vec![(v.clone(), 5u8)]), z: 6 }, e.map(|e| mv(Val::Map(vec![(e, vi(5))]), 6))),
+        Pos::NestedMapKeyInSeq => rt(
+            cx,
+            v,
+            pos,
+            ov,
+            &MapVal { k: vec![Om(vec![(v.clone(), 5u8)])], z: 6 },
+            e.map(|e| mv(Val::Seq(vec![Val::Map(vec![(e, vi(5))])]), 6)),
+        ),
+        Pos::DashSecondKey | Pos::MapSecondKey => {
+            if v.as_str().as_deref() == Some(GUARD_KEY) {
+                return; // would be a duplicate of the guard key
+            }
+            let m = |e: Val| Val::Map(vec![(vs(GUARD_KEY), vi(5)), (e, vi(6))]);
+            if pos == Pos::MapSecondKey {
+                rt(cx, v, pos, ov, &KeyAfter(v.clone()), e.map(m))
+            } else {
+                rt(cx, v, pos, ov, &(KeyAfter(v.clone()), 6u8), e.map(|e| Val::Seq(vec![m(e), vi(6)])))
+            }
+        }
     }
 }
 
@@ -709,6 +841,69 @@ fn check_float_batch<T: Scalar + Copy>(cx: &mut Cx, vals: &[T], batch_case: impl
     }
 }
 
+/// A block mapping whose KEYS are many distinct floats (values are the integer 6): key text goes
+/// through the key sink (`push_float_string`), and is read back through the key path of the reader.
+fn check_float_key_batch<T: Scalar + Copy>(cx: &mut Cx, vals: &[T], batch_case: impl Fn() -> J) {
+    // distinct keys only (all NaNs are one key)
+    let mut seen = std::collections::HashSet::new();
+    let keys: Vec<T> = vals.iter().copied().filter(|v| seen.insert(v.key_identity())).collect();
+    if keys.is_empty() {
+        return;
+    }
+    cx.evals += 1;
+    let m = Om(keys.iter().map(|k| (*k, 6u8)).collect::<Vec<_>>());
+    let text = match vcore::obs::catch(|| serde_saphyr::to_string(&m)) {
+        Ok(Ok(t)) => t,
+        Ok(Err(e)) => {
+            cx.violation(&format!("C12:{}:serialize-error:key-batch", T::KIND), &batch_case, || e.to_string());
+            return;
+        }
+        Err(p) => {
+            cx.violation(&format!("C12:panic:{}", vcore::obs::panic_site(&p)), &batch_case, || p.clone());
+            return;
+        }
+    };
+    let mut bad: Option<usize> = None;
+    let mut n = 0usize;
+    for (i, line) in text.lines().enumerate() {
+        n += 1;
+        let ok = line.strip_suffix(": 6").map(float_grammar).unwrap_or(false);
+        if !ok && bad.is_none() {
+            bad = Some(i);
+        }
+    }
+    if n != keys.len() && bad.is_none() {
+        bad = Some(n.min(keys.len() - 1));
+    }
+    let back = vcore::obs::catch(|| serde_saphyr::from_str::<Om<T, u8>>(&text));
+    if bad.is_none() {
+        match &back {
+            Ok(Ok(b)) if b.0.len() == m.0.len() => bad = b.0.iter().zip(&m.0).position(|(x, y)| x != y),
+            _ => bad = Some(0),
+        }
+    }
+    *cx.local.entry("float_key_batch_elements_roundtripped").or_insert(0) += keys.len() as u64;
+    if let Some(i) = bad {
+        let before = cx.failures_so_far();
+        let i = i.min(keys.len() - 1);
+        check_value(cx, &keys[i], &[Pos::MapKey, Pos::MapSecondKey], &[DEFAULT_OV]);
+        if cx.failures_so_far() == before {
+            cx.violation(&format!("C12:{}:key-batch-only", T::KIND), &batch_case, || {
+                format!(
+                    "mapping with {} float keys does not round-trip (first bad key #{i} = {:?}) although that key alone does; read-back: {}",
+                    keys.len(),
+                    keys[i],
+                    match &back {
+                        Ok(Ok(_)) => "Ok(different)".to_string(),
+                        Ok(Err(e)) => format!("{} ({})", vcore::errs::kind(e), e.without_snippet().to_string().lines().next().unwrap_or("")),
+                        Err(p) => p.clone(),
+                    }
+                )
+            });
+        }
+    }
+}
+
 // ------------------------------------------------------------------ replay
 
 fn replay(run: &Run, case: &J) {
@@ -752,6 +947,14 @@ fn replay(run: &Run, case: &J) {
             let n = case["count"].as_u64().unwrap_or(0) as u32;
             let v: Vec<F32> = (0..n).map(|i| F32(f32::from_bits(base.wrapping_add(i)))).collect();
             check_float_batch(&mut cx, &v, || case.clone());
+        }
+        "f64-key-batch" => {
+            let v: Vec<F64> = case["bits"].as_array().map(|a| a.iter().filter_map(F64::from_json).collect()).unwrap_or_default();
+            check_float_key_batch(&mut cx, &v, || case.clone());
+        }
+        "f32-key-batch" => {
+            let v: Vec<F32> = case["bits"].as_array().map(|a| a.iter().filter_map(F32::from_json).collect()).unwrap_or_default();
+            check_float_key_batch(&mut cx, &v, || case.clone());
         }
         "f64-batch" => {
             let v: Vec<F64> = case["bits"].as_array().map(|a| a.iter().filter_map(F64::from_json).collect()).unwrap_or_default();
@@ -805,22 +1008,76 @@ fn main() {
     };
 
     // ---- A. exhaustive strings over the 32-symbol adversarial alphabet
+    //      length <= 3: every position x every curated vector; length 4 (thorough): every position x
+    //      the 6 most different vectors, and the 17 base positions x 3 more vectors
     let max_len = tier.pick(3, 4);
     let total = gens::count_upto(gens::ADV.len(), max_len);
+    let upto3 = gens::count_upto(gens::ADV.len(), 3);
+    let six: [Ov; 6] = [CURATED[0], CURATED[1], CURATED[4], CURATED[8], CURATED[9], CURATED[10]];
+    let other3: [Ov; 3] = [CURATED[3], CURATED[5], CURATED[7]];
     const PER: usize = 16;
     if want("A") {
         par_range(total.div_ceil(PER), |ci| {
             let mut cx = Cx::new(&run);
             for idx in (ci * PER)..((ci + 1) * PER).min(total) {
                 let s = gens::nth_string(&gens::ADV, idx);
-                check_value(&mut cx, &s, &Pos::ALL, &CURATED);
+                if idx < upto3 {
+                    check_value(&mut cx, &s, &Pos::ALL, &CURATED);
+                } else {
+                    check_value(&mut cx, &s, &Pos::ALL, &six);
+                    check_value(&mut cx, &s, &Pos::BASE, &other3);
+                }
                 cx.bump("strings_adversarial_exhaustive");
                 if idx % 20011 == 0 {
-                    run.sample(|| json!({"kind": "string", "value": s, "positions": "all 17", "option_vectors": "12 curated"}));
+                    run.sample(|| json!({"kind": "string", "value": s, "positions": "all 38", "option_vectors": "13 curated"}));
                 }
             }
         });
         lap("A exhaustive adversarial strings");
+    }
+
+    // ---- A4 / A5. one symbol more over the most hostile sub-alphabets
+    //      quick: all 16^4 strings of length 4 over HOSTILE16 x every position x 6 vectors
+    //      (thorough covers them in A); thorough: all 12^5 strings of length 5 over HOSTILE12 x
+    //      every position x 13 vectors
+    let (sub_alpha, sub_len): (&[char], usize) = if thorough { (&gens::HOSTILE12, 5) } else { (&gens::HOSTILE16, 4) };
+    let sub_total = sub_alpha.len().pow(sub_len as u32);
+    if want("S") {
+        par_range(sub_total.div_ceil(PER), |ci| {
+            let mut cx = Cx::new(&run);
+            for idx in (ci * PER)..((ci + 1) * PER).min(sub_total) {
+                let s = gens::nth_of_len(sub_alpha, sub_len, idx);
+                if thorough {
+                    check_value(&mut cx, &s, &Pos::ALL, &CURATED);
+                } else {
+                    check_value(&mut cx, &s, &Pos::ALL, &six);
+                }
+                cx.bump("strings_hostile_subalphabet_exhaustive");
+                if idx % 30011 == 0 {
+                    run.sample(|| json!({"kind": "string", "value": s, "family": "hostile sub-alphabet, one symbol longer"}));
+                }
+            }
+        });
+        lap("S hostile sub-alphabet");
+    }
+
+    // ---- O. the full option grid (960 vectors) on every string of length <= 2
+    let grid_pos: Vec<Pos> = if thorough { Pos::ALL.to_vec() } else { Pos::CORE.iter().chain(Pos::LAYOUT.iter()).copied().collect() };
+    let n_short = gens::count_upto(gens::ADV.len(), 2);
+    if want("O") {
+        par_range(n_short * 16, |j| {
+            let mut cx = Cx::new(&run);
+            let (si, part) = (j / 16, j % 16);
+            let s = gens::nth_string(&gens::ADV, si);
+            for g in (part * Ov::GRID / 16)..((part + 1) * Ov::GRID / 16) {
+                let ov = Ov::grid(g);
+                for &p in &grid_pos {
+                    check_pos(&mut cx, &s, p, ov);
+                }
+            }
+            cx.bump("string_x_full_option_grid_sixteenths");
+        });
+        lap("O full option grid");
     }
 
     // ---- B. exhaustive number look-alikes
@@ -848,10 +1105,15 @@ fn main() {
     if want("C") {
         let looks = gens::lookalikes();
         let look_ovs = [CURATED[0], CURATED[4], CURATED[5], CURATED[7]];
+        let look_pos: Vec<Pos> = Pos::CORE
+            .iter()
+            .copied()
+            .chain([Pos::MapSecondKey, Pos::NestedMapKey, Pos::ComplexKeyValue, Pos::SeqInSeqItem, Pos::VariantInFlow])
+            .collect();
         par_range(looks.len().div_ceil(32), |ci| {
             let mut cx = Cx::new(&run);
             for s in &looks[(ci * 32)..((ci + 1) * 32).min(looks.len())] {
-                check_value(&mut cx, s, &Pos::CORE, &look_ovs);
+                check_value(&mut cx, s, &look_pos, &look_ovs);
                 check_value(&mut cx, &OptStr(Some(s.clone())), &[Pos::Root, Pos::MapValue, Pos::FlowSeq], &[DEFAULT_OV]);
                 cx.bump("strings_lookalike");
             }
@@ -873,8 +1135,14 @@ fn main() {
             Pos::VariantInMap,
             Pos::FlowSeq,
             Pos::TupleStructField,
+            Pos::SeqInSeqItem,
+            Pos::SeqInSeqInMap,
+            Pos::ComplexKeyValue,
+            Pos::TupleVariantInMap,
+            Pos::StructVariantInSeq,
+            Pos::NestedMapKey,
         ];
-        let pad_ovs = [CURATED[0], CURATED[3], CURATED[6], CURATED[9]];
+        let pad_ovs = [CURATED[0], CURATED[3], CURATED[6], CURATED[9], CURATED[12]];
         par_range(n_pieces, |i| {
             let mut cx = Cx::new(&run);
             let piece = gens::nth_string(&gens::ADV, i);
@@ -888,7 +1156,7 @@ fn main() {
 
     // ---- E. random strings up to 4 KiB, random position, random option vector from the full grid
     if want("E") {
-        let n_random = tier.pick(40_000, 1_200_000);
+        let n_random = tier.pick(100_000, 2_000_000);
         par_range(n_random, |i| {
             let mut cx = Cx::new(&run);
             let mut rng = Rng::stream(seed, i as u64);
@@ -910,6 +1178,50 @@ fn main() {
             }
         });
         lap("E random strings");
+    }
+
+    // ---- L. C0 / C1 controls, DEL, BOM, U+2028/9, non-characters and Unicode blanks in templates
+    if want("L") {
+        let ctl = gens::control_char_strings();
+        let ctl_ovs = [CURATED[0], CURATED[4], CURATED[7], CURATED[9], CURATED[12]];
+        par_range(ctl.len(), |i| {
+            let mut cx = Cx::new(&run);
+            check_value(&mut cx, &ctl[i], &Pos::ALL, &ctl_ovs);
+            cx.bump("strings_control_char_templates");
+        });
+        lap("L control characters");
+    }
+
+    // ---- T. lengths on the emitter's thresholds (folded_wrap_chars 8 / 80, 1024-character keys)
+    if want("T") {
+        let thr = gens::threshold_strings();
+        let thr_pos = [
+            Pos::Root,
+            Pos::SeqItem,
+            Pos::MapValue,
+            Pos::NestedMapInSeqValue,
+            Pos::SeqInSeqItem,
+            Pos::TupleVariantInMap,
+            Pos::ComplexKeyValue,
+            Pos::FlowSeq,
+            Pos::MapKey,
+            Pos::DashFirstKey,
+            Pos::NestedMapKey,
+            Pos::NestedMapKeyInSeq,
+            Pos::MapSecondKey,
+            Pos::DashSecondKey,
+            Pos::FlowMapKey,
+            Pos::ComplexKeyMember,
+        ];
+        par_range(thr.len(), |i| {
+            let mut cx = Cx::new(&run);
+            check_value(&mut cx, &thr[i], &thr_pos, &CURATED);
+            cx.bump("strings_on_length_thresholds");
+            if i % 997 == 0 {
+                run.sample(|| json!({"kind": "string", "chars": thr[i].chars().count(), "head": thr[i].chars().take(24).collect::<String>(), "family": "length threshold"}));
+            }
+        });
+        lap("T thresholds");
     }
 
     // ---- F. chars
@@ -939,7 +1251,7 @@ fn main() {
     if want("G") {
         const FB: usize = 4096;
         let n_batches = (1usize << 32) / FB;
-        let stride = tier.pick(251usize, 1);
+        let stride = tier.pick(127usize, 1);
         let n_sel = n_batches.div_ceil(stride);
         par_range(n_sel, |j| {
             let mut cx = Cx::new(&run);
@@ -1003,6 +1315,47 @@ fn main() {
             }
         });
         lap("H f64");
+    }
+
+    // ---- X. every f64 exponent (2048) x k random mantissas and signs, as sequence items and as KEYS;
+    //      f32: every exponent (256) x k as keys
+    if want("X") {
+        let k64 = tier.pick(64usize, 1024);
+        par_range(2048, |exp| {
+            let mut cx = Cx::new(&run);
+            let mut rng = Rng::stream(seed, 0xE64_0000 + exp as u64);
+            let mut vals: Vec<F64> = Vec::with_capacity(k64 + 2);
+            vals.push(F64(f64::from_bits((exp as u64) << 52)));
+            vals.push(F64(f64::from_bits(((exp as u64) << 52) | 0x000f_ffff_ffff_ffff)));
+            for _ in 0..k64 {
+                let r = rng.next_u64();
+                vals.push(F64(f64::from_bits((r & 0x800f_ffff_ffff_ffff) | ((exp as u64) << 52))));
+            }
+            for chunk in vals.chunks(1024) {
+                check_float_batch(&mut cx, chunk, || json!({"kind": "f64-batch", "bits": chunk.iter().map(|x| x.to_json()).collect::<Vec<_>>()}));
+            }
+            for chunk in vals.chunks(256) {
+                check_float_key_batch(&mut cx, chunk, || json!({"kind": "f64-key-batch", "bits": chunk.iter().map(|x| x.to_json()).collect::<Vec<_>>()}));
+            }
+            run.nontrivial(fnv_parts(&[b"f64-exponent", &(exp as u64).to_le_bytes(), &seed.to_le_bytes()]));
+            *cx.local.entry("f64_exponent_sweep_values").or_insert(0) += vals.len() as u64;
+        });
+        let k32 = tier.pick(256usize, 4096);
+        par_range(256, |exp| {
+            let mut cx = Cx::new(&run);
+            let mut rng = Rng::stream(seed, 0xE32_0000 + exp as u64);
+            let mut vals: Vec<F32> = vec![F32(f32::from_bits((exp as u32) << 23)), F32(f32::from_bits(((exp as u32) << 23) | 0x007f_ffff))];
+            for _ in 0..k32 {
+                let r = rng.next_u64() as u32;
+                vals.push(F32(f32::from_bits((r & 0x807f_ffff) | ((exp as u32) << 23))));
+            }
+            for chunk in vals.chunks(256) {
+                check_float_key_batch(&mut cx, chunk, || json!({"kind": "f32-key-batch", "bits": chunk.iter().map(|x| x.to_json()).collect::<Vec<_>>()}));
+            }
+            run.nontrivial(fnv_parts(&[b"f32-exponent-keys", &(exp as u64).to_le_bytes(), &seed.to_le_bytes()]));
+            *cx.local.entry("f32_exponent_sweep_key_values").or_insert(0) += vals.len() as u64;
+        });
+        lap("X float exponent sweep, float keys");
     }
 
     // ---- I. integers of every width, bool, unit
@@ -1102,11 +1455,14 @@ fn main() {
         run.observe("positions", p.name());
     }
     let scope = format!(
-        "strings: all {} strings of length <= {} over the 32-symbol adversarial alphabet x 17 positions x 12 curated option vectors; all {} strings of length <= {} over the 18-symbol number look-alike alphabet x 5 positions x {{default, yaml_12}}; chars: {}; f32: {}; byte arrays: all 65 793 arrays of length <= 2 x 9 positions x 2 option vectors; i8/u8: all values at root, map key, flow item",
-        total,
-        max_len,
-        total_num,
-        num_len,
+        "strings: all {upto3} strings of length <= 3 over the 32-symbol adversarial alphabet x 38 positions x 13 curated option vectors{}; {}; all 1057 strings of length <= 2 x the full grid of 960 option vectors (indent_step 1/2/3/4/8 x quote_all x yaml_12 x prefer_block_scalars x folded_wrap_chars 0/8/80 x min_fold_chars 0/32 x compact_list_indent x empty_as_braces) x {} positions; all {total_num} strings of length <= {num_len} over the 18-symbol number look-alike alphabet x 5 positions x {{default, yaml_12}}; chars: {}; f32: {}; f64/f32: every exponent value (2048 / 256) with its two extreme mantissas; byte arrays: all 65 793 arrays of length <= 2 x 9 positions x 2 option vectors; i8/u8: all values at root, map key, flow item",
+        if thorough { format!(", all {} strings of length 4 x 38 positions x 6 vectors and x 17 base positions x 3 more vectors", total - upto3) } else { String::new() },
+        if thorough {
+            format!("all {sub_total} strings of length 5 over the 12-symbol sub-alphabet (a 0 SP LF TAB CR : # - . ' \") x 38 positions x 13 vectors")
+        } else {
+            format!("all {sub_total} strings of length 4 over the 16-symbol sub-alphabet (a 0 SP LF TAB CR : # - . ' \" \\ < U+FEFF ,) x 38 positions x 6 vectors")
+        },
+        grid_pos.len(),
         if thorough {
             "all 1 112 064 scalar values at root x 3 option vectors and as map key / map value / flow item"
         } else {
@@ -1115,11 +1471,11 @@ fn main() {
         if thorough {
             "all 2^32 bit patterns (batched block sequences of 4096)"
         } else {
-            "1/251 of the 2^32 bit patterns in whole batches of 4096 consecutive patterns (not exhaustive)"
+            "1/127 of the 2^32 bit patterns in whole batches of 4096 consecutive patterns (not exhaustive)"
         },
     );
     let fin = Finish::new(
-        "a value counts as non-trivial when the emitter has to take a decision for it: a string/char that is empty, contains a non-letter or is a reserved word (null/true/yes/…); any float; any byte array; (integers, bool, unit are executed but not counted). Distinct by hash(kind, value); each distinct value is executed in up to 17 positions x 12 option vectors. Float batches count once per batch of 4096 / 1024 values.",
+        "a value counts as non-trivial when the emitter has to take a decision for it: a string/char that is empty, contains a non-letter or is a reserved word (null/true/yes/…); any float; any byte array; (integers, bool, unit are executed but not counted). Distinct by hash(kind, value); each distinct value is executed in up to 38 positions x 13 curated option vectors (strings of length <= 2: x all 960 vectors of the option grid). Float batches count once per batch (4096 / 1024 sequence items, 256 mapping keys) and once per exponent of the exponent sweep.",
     )
     .exhaustive(scope)
     .assume("reading is done with serde_saphyr::from_str and default Options (the statement's 'deserializes back')")
